@@ -162,7 +162,7 @@ class Utf8(CoreType):
                 f"Missing fields in output: {fields.keys()}, expected `data`"
             )
         if fields["data"].dtype.kind == "O" and all(
-            isinstance(x, str) for x in fields["data"]
+            isinstance(x, str) for x in fields["data"].flat
         ):
             return fields["data"].astype(np.str_)
         elif fields["data"].dtype.kind == "U":
